@@ -3,3 +3,4 @@ import ImmuModel.Tx.RecordRoundTrip
 import ImmuModel.Tx.RecordAuth
 import ImmuModel.Tx.RecordTotal
 import ImmuModel.Tx.ValueCacheProofs
+import ImmuModel.Tx.EntryDigestProofs
